@@ -337,6 +337,15 @@ func c04Case(r *obs.Run, i int) {
 					gw.Write(f)
 					desc = append(desc, "feature "+gffBrief(f))
 				case c < 7:
+					if rng.Intn(2) == 0 { // a ##Type line first: the region then carries that type (its token ends the line)
+						t := feat.Moltype(rng.Intn(4) - 1)
+						if rng.Intn(2) == 0 {
+							gw.WriteMetaData(t)
+						} else {
+							gw.WriteMetaData(gff.Sequence{SeqName: genNoSpace(rng), Type: t})
+						}
+						desc = append(desc, "##Type "+t.String())
+					}
 					reg := &gff.Region{Sequence: gff.Sequence{SeqName: genNoSpace(rng)}, RegionStart: rng.Intn(1000), RegionEnd: 1000 + rng.Intn(1000)}
 					gw.Write(reg)
 					desc = append(desc, fmt.Sprintf("region %+v", *reg))
@@ -359,6 +368,48 @@ func c04Case(r *obs.Run, i int) {
 				f := genBed(rng, n)
 				bw.Write(f)
 				desc = append(desc, fmt.Sprintf("%+v", f))
+			}
+		}
+		// now and then one more record whose line, without its terminator, is exactly one or two read buffers long: as the
+		// unterminated last line of the file it ends exactly where a buffer does
+		if rng.Intn(8) == 0 {
+			render := func(pad int) []byte {
+				tw := &countingWriter{}
+				filler := strings.Repeat("x", pad)
+				if kind == "gff" {
+					f := &gff.Feature{SeqName: "s" + filler, Source: "src", Feature: "f", FeatStart: 3, FeatEnd: 9, FeatFrame: gff.NoFrame}
+					gff.NewWriter(tw, 60, false).Write(f)
+				} else {
+					n := map[string]int{"bed3": 3, "bed4": 4, "bed5": 5, "bed6": 6, "bed12": 12}[kind]
+					f := genBed(rand.New(rand.NewSource(7)), n)
+					switch b := f.(type) {
+					case *bed.Bed3:
+						b.Chrom = "c" + filler
+					case *bed.Bed4:
+						b.Chrom = "c" + filler
+					case *bed.Bed5:
+						b.Chrom = "c" + filler
+					case *bed.Bed6:
+						b.Chrom = "c" + filler
+					case *bed.Bed12:
+						b.Chrom = "c" + filler
+					}
+					bw, _ := bed.NewWriter(tw, n)
+					bw.Write(f)
+				}
+				return append([]byte(nil), tw.buf.Bytes()...)
+			}
+			base := len(render(0)) - 1
+			target := 4096 * (1 + rng.Intn(2))
+			for target < base {
+				target += 4096
+			}
+			last := render(target - base)
+			if len(last)-1 == target {
+				cw.buf.Write(last)
+				lastIsSeq = false
+				desc = append(desc, fmt.Sprintf("a last record whose line is %d bytes long", target))
+				r.Count("last_lines_exactly_a_buffer_long", 1)
 			}
 		}
 		w["items"] = desc
